@@ -18,11 +18,7 @@ open Req.Pool.Lockset
 
 /-- (0 = Transport.pendingAltSvcs, "Transport.checkAltSvc"), (1 = AltSvcJar.entries,
 "AltSvcJar.GetAltSvc"), (13 = http3 RoundTripper.transport, "RoundTripper.dial"). -/
-def knownOpen : List (Nat × List Nat) := [
-  (0, [84, 114, 97, 110, 115, 112, 111, 114, 116, 46, 99, 104, 101, 99, 107, 65, 108, 116, 83, 118, 99]),
-  (1, [65, 108, 116, 83, 118, 99, 74, 97, 114, 46, 71, 101, 116, 65, 108, 116, 83, 118, 99]),
-  (13, [82, 111, 117, 110, 100, 84, 114, 105, 112, 112, 101, 114, 46, 100, 105, 97, 108])
-]
+def knownOpen : List (Nat × List Nat) := []  -- emptied: C09-1, C09-2, C09-4 are in /repo (088e6cf, 3380923, 7e6e7ad)
 
 /-- **anchored_fields_guarded**: every anchored shared field (and every `…Locked` calling
 convention) has a lock common to all its access sites. -/
